@@ -203,6 +203,7 @@ func quotedPattern(v ssa.Value) (bool, string) {
 	ok := true
 	bad := ""
 	seen := map[ssa.Value]bool{}
+	depth := 0
 	var walk func(x ssa.Value)
 	walk = func(x ssa.Value) {
 		if x == nil || seen[x] || !ok {
@@ -251,6 +252,17 @@ func quotedPattern(v ssa.Value) (bool, string) {
 					}
 				}
 			default:
+				// a gluon helper that builds (part of) the pattern: all it can return must qualify
+				if len(sc.Blocks) > 0 && strings.HasPrefix(engine.PkgPathOf(sc), "github.com/ProtonMail/gluon") && len(engine.Returns(sc)) > 0 && depth < 3 {
+					depth++
+					for _, r := range engine.Returns(sc) {
+						if len(r.Results) > 0 {
+							walk(engine.ResultOf(r, 0))
+						}
+					}
+					depth--
+					return
+				}
 				ok, bad = false, "the result of "+sc.Name()+"()"
 			}
 		case *ssa.Parameter:
